@@ -41,11 +41,18 @@ def build_case(seed: int, stream: int) -> dict:
         opts.chain_depth = [17, 33, 65, 80, 64][(stream // 10) % 5]
         opts.max_ns_depth, opts.noise, opts.reuse_names = 1, 0.0, 0.0
     gen = ModelGen(rng, opts).generate()
+    if stream % 10 == 3:
+        # hundreds of empty namespaces next to the declarations (`namespace X {}` - what is left
+        # of a module whose contents moved, a placeholder, a generated skeleton)
+        count = [60, 600, 700][(stream // 10) % 3]
+        gen.root.pieces[0].elements.extend(M.Namespace([f'QZempty{k}'], []) for k in range(count))
     if rng.random() < 0.3:
         gen.model.comment = rng.choice(['// c', '', 'multi\nline'])
     doc = M.to_json(gen.model, decorate=rng.random() < 0.5, rng=rng)
     return {'doc': doc, 'expect': M.expectations(gen.model),
             'route': rng.choice(['str', 'bytes', 'file', 'reused-after-refusal']),
+            # long use: one parser object asked for its document hundreds of times
+            'repeat': 700 if stream % 10 == 7 and len(json.dumps(doc)) < 6000 else 0,
             'stream': stream}
 
 
@@ -77,6 +84,12 @@ def eval_case(case: dict) -> dict:
     try:
         with common.quiet():
             fc = parse(text, case.get('route'))
+            if case.get('repeat'):
+                from dznpy.json_ast import DznJsonAst  # pylint: disable=import-outside-toplevel
+                parser = DznJsonAst(text)
+                for _ in range(case['repeat']):
+                    fc = parser.process()
+                res['counts']['documents_processed_hundreds_of_times_by_one_parser'] = 1
         got = M.canon_filecontents(fc)
     except Exception as exc:  # pylint: disable=broad-except
         info = common.classify_exception(exc)
@@ -129,7 +142,8 @@ def main(tier: str) -> int:
     run = common.Run(PROP, tier)
     n = 300 if tier == 'quick' else 100000
     run.require('entries_compared', 'results_compared_again_after_use_by_the_caller',
-                'documents_nested_deeper_than_16_namespaces', 'documents_nested_deeper_than_64_namespaces')
+                'documents_nested_deeper_than_16_namespaces', 'documents_nested_deeper_than_64_namespaces',
+                'documents_processed_hundreds_of_times_by_one_parser')
     for item, res in run.pmap(_worker, [(run.seed, i) for i in range(n)], chunksize=25):
         common.absorb(run, {'seed': item[0], 'stream': item[1]}, res)
     return run.finish(
